@@ -30,6 +30,8 @@ ASSUMPTIONS = [
     "equal, the place of unparsable strings and which of several versions a non-range npm requirement selects are C12's clauses and "
     "are also taken out of the model/implementation comparison here; requirement order is judged by the version's own system, "
     "lists mixing npm and other systems only as multisets",
+    "the package-level latest rule for MatchingVersions and the emptying of requirements by a re-addition with none are theorems "
+    "(C14_matching_selects_from_versions_npm, C14_matching_latest_on_package, C14_readd_empty_requirements), not only oracle clauses",
     "histories on whose table Go's comparator is not lawful (the hypothesis laws_ok of the theorems) are counted and sent to the "
     "reference model only",
 ]
@@ -42,7 +44,14 @@ MANIFEST = dict(
           "added keys are not found — proved for AddVersion as repaired in the tree (3f7cc9a), refuted by witness for the old code "
           "(F-C14-1, fixed: the replace branch stored the old value back), and the one-token repair alone shown insufficient for "
           "npm order when tags change; the variant tied to the tree is detected on every run by replaying the witnesses. Model tied to the code by differential execution of histories; the Go outputs are "
-          "also compared with a map-based python reference."),
+          "also compared with a map-based python reference. Also theorems (npm, repaired client, all histories): the slice Versions "
+          "returns is a fixed point of SortVersions; MatchingVersions is the selection by the requirement from that very list "
+          "(filter for a constraint, its first element for a non-range; Maven/PyPI: filter) - so the latest rule is decided on "
+          "the package, not on the match (C14_matching_latest_on_package, C14_versions_latest_position, with an example where "
+          "package and match disagree about having a release); a re-addition without requirements leaves none "
+          "(C14_readd_empty_requirements); the npm requirement order is determined (independent of the order given, and of the "
+          "sorting algorithm) when no two requirements share shown name and dev-only status (C14_requirements_order_unique, "
+          "_any_sort, _order_insensitive), refuted for ties (C14_requirements_ties_refuted)."),
     note=("Trusted: Coq 8.16.1 kernel (+vm_compute), translator gotables, extraction (ExtrOcamlBasic only) and driver.ml, the "
           "Go harness and python generators/reference. The Gallina model is hand-written and validated against the "
           "implementation by execution on every run, not verified against the Go source. The semver layer enters as an "
